@@ -369,7 +369,11 @@ def rule_e(ctx):
            ["impl at %s:%s" % (i["file"], i["line"]) for i in impls])
 
 
+def rule_f(ctx):
+    K.check_floors(ctx, "C06")
+
 RULES = [
+    ("C06.f", "release/acquire floors of the idle-pool publication", rule_f),
     ("C06.a", "message counter mutated only at the reviewed sites", rule_a),
     ("C06.b", "fold before deactivation; count read only when idle", rule_b),
     ("C06.c", "Deadlock / MessageLoss report built from all observers", rule_c),
